@@ -10,26 +10,13 @@ import (
 	"github.com/openfga/openfga/pkg/storage/memory"
 )
 
-func try(name string, rr *openfgav1.RelationReference) {
-	defer func() {
-		if p := recover(); p != nil {
-			fmt.Println(name, "=> PANIC:", p)
-		}
-	}()
+func main() {
 	s := server.MustNewServerWithOpts(server.WithDatastore(memory.New()))
 	ctx := context.Background()
 	cs, _ := s.CreateStore(ctx, &openfgav1.CreateStoreRequest{Name: "dbg-store"})
-	this := &openfgav1.Userset{Userset: &openfgav1.Userset_This{This: &openfgav1.DirectUserset{}}}
-	tds := []*openfgav1.TypeDefinition{{Type: "user"}, {Type: "doc",
-		Relations: map[string]*openfgav1.Userset{"viewer": this},
-		Metadata:  &openfgav1.Metadata{Relations: map[string]*openfgav1.RelationMetadata{"viewer": {DirectlyRelatedUserTypes: []*openfgav1.RelationReference{rr}}}}}}
-	_, err := s.WriteAuthorizationModel(ctx, &openfgav1.WriteAuthorizationModelRequest{StoreId: cs.GetId(), TypeDefinitions: tds, SchemaVersion: "1.1"})
-	fmt.Println(name, "=>", err)
-}
-
-func main() {
-	try("relation oneof set to empty string", &openfgav1.RelationReference{Type: "user", RelationOrWildcard: &openfgav1.RelationReference_Relation{Relation: ""}})
-	try("wildcard oneof with nil payload", &openfgav1.RelationReference{Type: "user", RelationOrWildcard: &openfgav1.RelationReference_Wildcard{}})
-	try("plain [user]", &openfgav1.RelationReference{Type: "user"})
-	try("[user:*]", &openfgav1.RelationReference{Type: "user", RelationOrWildcard: &openfgav1.RelationReference_Wildcard{Wildcard: &openfgav1.Wildcard{}}})
+	for _, tok := range []string{"", "AAAA", "abc", "MDFIVk1NQkNNR1pOVDNTRUQ0WjE3RUNYQ0E="} {
+		_, e1 := s.ListStores(ctx, &openfgav1.ListStoresRequest{ContinuationToken: tok})
+		_, e3 := s.ReadAuthorizationModels(ctx, &openfgav1.ReadAuthorizationModelsRequest{StoreId: cs.GetId(), ContinuationToken: tok})
+		fmt.Printf("token %.20q: ListStores: %v | ReadAuthorizationModels: %v\n", tok, e1, e3)
+	}
 }
